@@ -124,6 +124,8 @@ Formulas == <<
   <<"P_C04_InboundDataExactlyAtWindow", P_C04_InboundDataExactlyAtWindow>>,
   <<"P_C04_RemoteWindowIsAdvertised", P_C04_RemoteWindowIsAdvertised>>,
   <<"P_C05_AutoUpdateWithinBounds", P_C05_AutoUpdateWithinBounds>>,
+  <<"P_C05_NoStall", P_C05_NoStall>>,
+  <<"P_C25_UpgradeHandsOver", P_C25_UpgradeHandsOver>>,
   <<"P_C06_StreamStatesAreRfcStates", P_C06_StreamStatesAreRfcStates>>,
   <<"P_C07_EventsFitRole", P_C07_EventsFitRole>>,
   <<"P_C08_RoleRestrictedSends", P_C08_RoleRestrictedSends>>,
